@@ -75,6 +75,16 @@ def main():
                     want = absapi.camel(w)          # protoc's lowerCamel JSON name of the ORIGINAL field name
                     if want not in js:
                         o['problems'].append(f'JSON keys {list(js)} lack {want}')
+                    # REST: the field is REQUIRED and bound to the query string (set, then unset -> default-valued)
+                    for val in ('v', None):
+                        state['http'] = None
+                        getattr(rclient, meth)(request=M(**({attr: val} if val else {})))
+                        q = urllib.parse.parse_qsl(state['http']['query'], keep_blank_values=True)
+                        keys = [k for k, _ in q if not k.startswith('$')]
+                        if (want, val or '') not in q:
+                            o['problems'].append(f'REST query {q} lacks {want}={val or ""!r}')
+                        if any(k not in (want, 'plain') for k in keys):
+                            o['problems'].append(f'REST query carries foreign keys: {q}')
                 elif position == 'nested_field':
                     In = getattr(mod, f'In{i}')
                     fs = fields_of(In)
